@@ -548,6 +548,10 @@ Local Open Scope string_scope.
 Definition culprits : list string :=
   ["VerifyStates"; "SetSchema"; "Import"; "NM.Tracers"; "NM.Log"].
 
+(* the methods that reset the export copy of the state names: a program that
+   runs one of them is Cold whatever happened before *)
+Definition resetters : list string := ["VerifyStates"; "SetSchema"; "Import"].
+
 (* entries that do not follow the guard discipline [guards] below (on the Cold
    table: every entry that can run StateNames()'s write branch as well) *)
 Definition discipline_exceptions : list string :=
@@ -574,8 +578,9 @@ Definition field_idents : list (string * string * field) :=
    ("machine", "stateCtx", subsStateCtx);
    ("machine", "whenQueue", subsQueue); ("machine", "whenQueueEnds", subsQueue);
    ("machine", "logEntries", logEntries); ("machine", "breakpoints", breakpoints);
-   ("machine", "Index", resolver); ("machine", "topology", resolver);
-   ("machine", "Transition", resolver); ("machine", "tDbg", tDbg);
+   ("machine", "rr.Index", resolver); ("machine", "rr.topology", resolver);
+   ("machine", "rr.Transition", resolver); ("machine", "rr.Machine", resolver);
+   ("machine", "tDbg", tDbg);
    ("rpc", "machTime", nmMachTime); ("rpc", "machClock", nmMachClock);
    ("rpc", "queueTick", nmQueueTick); ("rpc", "machTick", nmMachTick);
    ("rpc", "stateNames", nmStateNames); ("rpc", "tracers", nmTracers);
@@ -583,6 +588,9 @@ Definition field_idents : list (string * string * field) :=
    ("rpc", "activeStatesDbg", nmActiveDbg)].
 
 Local Close Scope string_scope.
+
+Definition is_resetter (name : string) : bool :=
+  existsb (String.eqb name) resetters.
 
 Definition breaks_discipline (name : string) : bool :=
   existsb (String.eqb name) discipline_exceptions.
